@@ -882,6 +882,13 @@ func genC17(r *rng, n int, emit func(string)) {
 	for w := -1; w <= 40; w++ {
 		emit(fmt.Sprintf("lpad %s %d", hxs(hexString(r, 20)), w))
 	}
+	for w := -1; w <= 20; w++ { // MustHexPadLeft: widths around the text's own, odd and even lengths
+		emit(fmt.Sprintf("mhex %s %d", hxs(hexString(r, 20)), w))
+		emit(fmt.Sprintf("mhex %s %d", hxs("0123456789abcdefABCDEF"[:r.intn(23)]), w))
+	}
+	emit("mhex " + hxs("zz") + " 4")
+	emit("mhex " + hxs("") + " 0")
+	emit("mhex " + hxs("abc") + " 1")
 	for l := 0; l <= 40; l++ {
 		s := hexString(r, 0)
 		for len(s) < l {
@@ -899,6 +906,7 @@ func genC17(r *rng, n int, emit func(string)) {
 			emit(fmt.Sprintf("lpad %s %d", hxs(hexString(r, 300)), pick(r, []int{0, 1, 2, 16, 40, 256, 300, 1000, r.intn(400)})))
 		case 3:
 			emit("phexts " + hxs(hexString(r, 24)))
+			emit(fmt.Sprintf("mhex %s %d", hxs(hexString(r, 40)), pick(r, []int{0, 1, 2, 8, 16, 20, 64, 128, r.intn(40)})))
 		case 4:
 			emit("pchal " + hxs(decString(r)))
 		case 5:
